@@ -49,6 +49,18 @@ let doc_s (d : Rodeo.doc) =
       ^ String.concat ","
           (L.map (fun (s, k) -> hex_of_bytes s ^ "=" ^ string_of_n (BinNat.N.succ k)) l)
 
+(* `s<n>` in a plan is Iterator::nth(n), which neither Iter nor Strings overrides: by std's default definition it is
+   n+1 calls of next() of which only the last result is returned.  parse_plan expands it that way and records here
+   which of the model's items are visible (None: all). *)
+let plan_mask : bool list option ref = ref None
+
+let rec apply_mask (m : bool list) (l : Rodeo.item list) =
+  match m, l with
+  | _, [] -> []
+  | [], l -> l
+  | _ :: _, [ Rodeo.ItPanic ] -> [ Rodeo.ItPanic ]
+  | keep :: m', x :: l' -> if keep then x :: apply_mask m' l' else apply_mask m' l'
+
 let out_s ?(keyed = true) ?(sort_hex = false) (o : Rodeo.out) : string =
   match o with
   | Rodeo.OKey k -> "K" ^ string_of_n k
@@ -60,7 +72,10 @@ let out_s ?(keyed = true) ?(sort_hex = false) (o : Rodeo.out) : string =
   | Rodeo.ONum n -> "#" ^ string_of_n n
   | Rodeo.OUnit -> "U"
   | Rodeo.OItems l ->
-      let strs = L.map (item_s keyed) (cut_at_panic l) in
+      let l = cut_at_panic l in
+      let l = match !plan_mask with Some m when not sort_hex -> apply_mask m l | _ -> l in
+      plan_mask := None;
+      let strs = L.map (item_s keyed) l in
       let strs = if sort_hex then L.sort compare strs else strs in
       "I:" ^ String.concat "," strs
   | Rodeo.ODoc d -> doc_s d
@@ -131,23 +146,38 @@ let keycap_of (k : string) : coq_N =
       else failwith ("bad key type " ^ k)
 
 let parse_plan (p : string) : Rodeo.iop list =
+  plan_mask := None;
   if p = "-" then []
   else begin
     let n = String.length p in
+    let mask = ref [] and masked = ref false in
     let rec go i acc =
       if i >= n then L.rev acc
       else
         match p.[i] with
-        | 'n' -> go (i + 1) (Rodeo.INext :: acc)
-        | 'b' -> go (i + 1) (Rodeo.INextBack :: acc)
-        | 'l' -> go (i + 1) (Rodeo.ILen :: acc)
+        | 'n' -> mask := true :: !mask; go (i + 1) (Rodeo.INext :: acc)
+        | 'b' -> mask := true :: !mask; go (i + 1) (Rodeo.INextBack :: acc)
+        | 'l' -> mask := true :: !mask; go (i + 1) (Rodeo.ILen :: acc)
         | 't' ->
             let j = ref (i + 1) in
             while !j < n && p.[!j] >= '0' && p.[!j] <= '9' do incr j done;
+            mask := true :: !mask;
             go !j (Rodeo.INthBack (n_of_string (String.sub p (i + 1) (!j - i - 1))) :: acc)
+        | 's' ->
+            let j = ref (i + 1) in
+            while !j < n && p.[!j] >= '0' && p.[!j] <= '9' do incr j done;
+            let k = int_of_string (String.sub p (i + 1) (!j - i - 1)) in
+            if k > 4096 then failwith "bad plan";
+            masked := true;
+            let acc = ref acc in
+            for _ = 1 to k do mask := false :: !mask; acc := Rodeo.INext :: !acc done;
+            mask := true :: !mask;
+            go !j (Rodeo.INext :: !acc)
         | _ -> failwith "bad plan"
     in
-    go 0 []
+    let r = go 0 [] in
+    if !masked then plan_mask := Some (L.rev !mask);
+    r
   end
 
 (* the static pool: (canonical index, content) per entry *)
